@@ -48,7 +48,7 @@ end Enc
 /-! ## C09: invariant of the fold -/
 
 /-- what C09 says of one frame, except its counter -/
-structure FrameOk (dev stream : Nat) (V : Nat → Prop) (f : EFrame) : Prop where
+structure FrameOkH (dev stream : Nat) (V : Nat → Prop) (f : EFrame) : Prop where
   hdev : f.dev = dev
   hstream : f.stream = stream
   hver : V f.ver
@@ -60,8 +60,8 @@ structure Inv (q0 dev stream : Nat) (V : Nat → Prop) (s : Enc) : Prop where
   hstream : s.stream = stream
   seqc : s.seqc = (q0 + s.closed.length + (if s.cur.isSome then 1 else 0)) % 65536
   cseq : ∀ i (h : i < s.closed.length), s.closed[i].seq = (q0 + i + 1) % 65536
-  cfr : ∀ f ∈ s.closed, FrameOk dev stream V f
-  cur : ∀ f, s.cur = some f → f.seq = (q0 + s.closed.length + 1) % 65536 ∧ FrameOk dev stream V f
+  cfr : ∀ f ∈ s.closed, FrameOkH dev stream V f
+  cur : ∀ f, s.cur = some f → f.seq = (q0 + s.closed.length + 1) % 65536 ∧ FrameOkH dev stream V f
 
 /-- the template, if set, has an allowed version and the current message type -/
 def TV (V : Nat → Prop) (s : Enc) : Prop := ∀ t, s.tmpl = some t → V t.1 ∧ t.2 = s.curMt
@@ -166,14 +166,14 @@ theorem addNew_tmpl (s : Enc) (p : Packet) :
 end Enc
 
 /-- the fold invariant, while packet `p` is being put -/
-structure Good (q0 d st : Nat) (V : Nat → Prop) (p : Packet) (s : Enc) : Prop where
+structure GoodH (q0 d st : Nat) (V : Nat → Prop) (p : Packet) (s : Enc) : Prop where
   inv : Inv q0 d st V s
   tv : TV V s
   tc : TC s
   mt : s.curMt = p.mt
 
 theorem addNew_good {p : Packet} (h : Inv q0 d st V s) (htv : TV V s) (hmt : s.curMt = p.mt)
-    (hv : V (p.version % 256)) : Good q0 d st V p (s.addNew p) := by
+    (hv : V (p.version % 256)) : GoodH q0 d st V p (s.addNew p) := by
   have hgd : V (s.tmpl.getD (p.version % 256, p.mt)).1 ∧
       (s.tmpl.getD (p.version % 256, p.mt)).2 = s.curMt := by
     cases ht : s.tmpl with
@@ -193,8 +193,8 @@ theorem addNew_good {p : Packet} (h : Inv q0 d st V s) (htv : TV V s) (hmt : s.c
     rfl
   · rw [Enc.addNew_curMt]; exact hmt
 
-theorem add_good {p : Packet} (h : Good q0 d st V p s) (m : EMsg) (hm : m.pkt = p) :
-    Good q0 d st V p (s.add m) := by
+theorem add_good {p : Packet} (h : GoodH q0 d st V p s) (m : EMsg) (hm : m.pkt = p) :
+    GoodH q0 d st V p (s.add m) := by
   refine ⟨add_inv h.inv m ?_, ?_, ?_, ?_⟩
   · intro f hf
     have := (h.tv _ (h.tc f hf)).2
@@ -215,8 +215,8 @@ theorem add_good {p : Packet} (h : Good q0 d st V p s) (m : EMsg) (hm : m.pkt = 
       exact h.tc f0 hf0
   · rw [Enc.add_curMt]; exact h.mt
 
-theorem addNew_good' {p : Packet} (h : Good q0 d st V p s) (hv : V (p.version % 256)) :
-    Good q0 d st V p (s.addNew p) :=
+theorem addNew_good' {p : Packet} (h : GoodH q0 d st V p s) (hv : V (p.version % 256)) :
+    GoodH q0 d st V p (s.addNew p) :=
   addNew_good h.inv h.tv h.mt hv
 
 theorem segMsgs_pkt (idx : Nat) (p : Packet) (b : Bool) (cs : List Bytes) :
@@ -243,7 +243,7 @@ theorem segMsgs_pkt (idx : Nat) (p : Packet) (b : Bool) (cs : List Bytes) :
         · exact ih false m (by simpa [segMsgs] using hm)
 
 theorem putSegs_good {p : Packet} (hv : V (p.version % 256)) (ms : List EMsg) :
-    ∀ s, Good q0 d st V p s → (∀ m ∈ ms, m.pkt = p) → Good q0 d st V p (putSegs s p ms) := by
+    ∀ s, GoodH q0 d st V p s → (∀ m ∈ ms, m.pkt = p) → GoodH q0 d st V p (putSegs s p ms) := by
   induction ms with
   | nil => intro s h _; exact h
   | cons m ms ih =>
@@ -254,10 +254,10 @@ theorem putSegs_good {p : Packet} (hv : V (p.version % 256)) (ms : List EMsg) :
 
 theorem putPacket_good (c : Ctx) (ip : Nat × Packet) (h : Inv q0 d st V s) (htv : TV V s) (htc : TC s)
     (hv : V (ip.2.version % 256)) :
-    Good q0 d st V ip.2 (putPacket c s ip) := by
+    GoodH q0 d st V ip.2 (putPacket c s ip) := by
   obtain ⟨i, p⟩ := ip
   simp only at hv ⊢
-  have h1 : Good q0 d st V p (if s.cur.isNone || s.curMt != p.mt then
+  have h1 : GoodH q0 d st V p (if s.cur.isNone || s.curMt != p.mt then
               ({ s with curMt := p.mt, tmpl := none } : Enc).addNew p else s) := by
     split
     · apply addNew_good (s := { s with curMt := p.mt, tmpl := none })
@@ -273,7 +273,7 @@ theorem putPacket_good (c : Ctx) (ip : Nat × Packet) (h : Inv q0 d st V s) (htv
   simp only
   generalize (if s.cur.isNone || s.curMt != p.mt then
               ({ s with curMt := p.mt, tmpl := none } : Enc).addNew p else s) = s1 at h1 ⊢
-  have h2 : Good q0 d st V p (if s1.left c < 16 + p.payloadLength then s1.addNew p else s1) := by
+  have h2 : GoodH q0 d st V p (if s1.left c < 16 + p.payloadLength then s1.addNew p else s1) := by
     split
     · exact addNew_good' h1 hv
     · exact h1
